@@ -33,6 +33,9 @@ def layouts(tier):
         m([['%define ', N2], ['k1 [$', N2, ']']]),
         m([['%define ', N1, '  ', D1, ' ', D1, ' '], ['k1 $', N1]]),
         m([['%define ', N1, ' ', D3]]),
+        # any character (non-ASCII letters and digits included) inside a name and right behind a reference
+        m([['%define ', N1, ['x', 1], ' ', D1], ['k1 $', ['ref', 0, 1], ['ref', 0, 2]]]),
+        m([['%define ', N1, ' v'], ['k1 $', ['ref', 0, 1], ['x', 1], ' ${', ['ref', 0, 1], '}', ['x', 1]]]),
         [['main.conf', [['%define ', N1, ' v'], '%include inc.conf', ['k2 $', N1]]],
          ['inc.conf', [['k1 $', N1], ['%define ', N1, ' w']]]],
         [['main.conf', ['%include a/inc.conf', ['k2 $', N1]]],
